@@ -263,6 +263,36 @@ def rule_blockgate(prog, rep):
         rep.instance("C09.BLOCKGATE", "serializer and parser agree on TRIPLE_QUOTE / ESCAPED_TRIPLE_QUOTE (const-evaluated)")
     else:
         rep.finding("C09.BLOCKGATE", "apollo_compiler::ast::serialize::serialize_block_string", "constants", "serializer's triple-quote constants differ from the parser's", None)
+    # lines of a multi-line block string: every line is written after the current indentation
+    # (require_new_line), except a line that is EMPTY - there the indentation would be trailing
+    # whitespace and BlockStringValue() ignores empty lines.  A line that merely looks blank
+    # (spaces / tabs) must keep its indentation prefix, or parsing strips the common indent from
+    # it and the value changes.
+    from ..flow import facts_at as _fa, _strip as _sp, loop_headers as _lh, loop_body as _lb
+    sbs = prog.fn(r"^apollo_compiler::ast::serialize::serialize_block_string$")
+    hs_ = {h: v for h, v in _lh(sbs).items() if h in sbs.reachable_blocks([v[0]])}
+    if len(hs_) == 1:
+        h_ = list(hs_)[0]
+        body_ = set(_lb(sbs, h_, hs_))
+        elem = re.escape(sbs.sym(hs_[h_][2].dest)) if False else None
+        writes = [c for c in sbs.live_calls() if c.block in body_ and re.search(r"State::<'_, '_>::write$|State.*::write$", c.name)]
+        indents = [c.block for c in sbs.live_calls() if c.block in body_ and re.search(r"require_new_line$", c.name)]
+        bad = []
+        for c in writes:
+            # a write in the loop body that is not preceded by require_new_line on its path
+            if any(sbs.dominates(i, c.block) for i in indents):
+                continue
+            fs = _sp(_fa(sbs, c.block))
+            empty = any(x[0] == "callbool" and x[1].endswith("str>::is_empty") and x[3] is True and re.search(r"Iterator>::next@%d\.as:Some\.0$" % h_, (x[2][0] or "")) for x in fs)
+            if not empty:
+                bad.append(c)
+        if bad:
+            rep.finding("C09.BLOCKGATE", sbs.name, "unindented-line",
+                        "serialize_block_string writes a line without the indentation prefix on a path that is not guarded by `line.is_empty()` (guards: %s): a whitespace-only line written without its prefix loses characters when the parser strips the common indentation" % ([(x[1].split("::")[-1], x[3]) for x in _sp(_fa(sbs, bad[0].block)) if x[0] == "callbool"][:3]), bad[0].loc())
+        elif writes:
+            rep.instance("C09.BLOCKGATE", "serialize_block_string: only an empty line is written without the indentation prefix")
+    else:
+        rep.note("C09.BLOCKGATE: the per-line loop of serialize_block_string was not recognised; unindented lines not judged")
     sl = prog.fn(r"serialize_block_string::serialize_line$")
     b2 = prog.hir_body(sl)["body"]
     so = [n for n in walk(b2) if n.get("k") == "mcall" and n["m"] == "split_once"]
